@@ -8,7 +8,7 @@ import termios
 
 from mc import env as E
 from mc import transports as TR
-from mc.explore import Chooser, Cut
+from mc.explore import Chooser, Cut, dfs
 from mc.runner import Acc
 
 PROPERTY = 'C08'
@@ -18,7 +18,7 @@ ASSUMPTIONS = ['pty slave in raw mode (no tty processing), so the received bytes
                'payloads above the kernel buffer are drained by a free-running reader thread (only the total is compared)',
                'short writes are not injected: blocking pty/pipe/socket writes complete on Linux']
 REQUIRED_FLAGS = {'all_bytes': 1, 'non_ascii_text': 1, 'text_in_bytes_mode': 1, 'large': 1, 'control': 1, 'stateful_bom': 1,
-                  'linesep_changed_between_sendlines': 1}
+                  'linesep_changed_between_sendlines': 1, 'two_short_writes': 1, 'length_sweep': 1}
 
 BIG = 300000
 CONTROL = list('abcdefghijklmnopqrstuvwxyz') + list('ABZ') + ['@', '`', '[', '{', '\\', '|', ']', '}', '^', '~', '_', '?']
@@ -57,6 +57,15 @@ def tasks(tier):
     # the separator in force at the time of each sendline(): `linesep` is a public, assignable attribute
     for tr in TR.NAMES:
         out.append(dict(kind='linesep', transport=tr, tier=tier))
+    # environment answer "the OS took only part of the payload" (deviation bound 2 per execution)
+    for tr in ('pty-select', 'fd-select', 'popen'):
+        out.append(dict(kind='short-write', transport=tr, tier=tier))
+    # payload lengths on and around every chunk-size boundary
+    for tr in TR.NAMES:
+        if tr.endswith('-poll'):
+            continue
+        for part in range(2):
+            out.append(dict(kind='sizes', transport=tr, tier=tier, part=part, parts=2))
     return out
 
 
@@ -77,8 +86,9 @@ def op_menu(task):
     return ops
 
 
-def run_seq(task, seq, mode, big=False):
-    env = E.Env(Chooser(()))
+def run_seq(task, seq, mode, big=False, ch=None, payload=None):
+    env = E.Env(ch if ch is not None else Chooser(()))
+    env.short_writes = 2 if ch is not None else 0
     link = None
     viol = None
     obs = {}
@@ -94,6 +104,10 @@ def run_seq(task, seq, mode, big=False):
         nbig = BIG if task['transport'] in ('socket', 'fd-select', 'fd-poll') else BIG // 3
         pl['big'] = (bytes((i * 7 + 3) % 251 for i in range(nbig)) if mode == 'bytes'
                      else ''.join(chr(0x61 + (i % 26)) if i % 5 else '€' for i in range(nbig)))
+        if payload is not None:
+            pl['given'] = payload
+        if ch is not None:
+            pl['ten'] = b'abcdefghij' if mode == 'bytes' else 'abcdefgh\xe9'
         encoder = codecs.getincrementalencoder(enc)() if enc else None
         linesep = os.linesep
 
@@ -166,6 +180,10 @@ def run_seq(task, seq, mode, big=False):
     return obs, viol
 
 
+SIZES = sorted(set(list(range(0, 70)) + [k * 256 + d for k in range(1, 41) for d in (-1, 0, 1)]
+                   + [2 ** k + d for k in range(11, 18) for d in (-1, 0, 1)] + [1000 * k + d for k in range(1, 11) for d in (-1, 0, 1)]))
+
+
 def big_verdict(viol, detail=True):
     """How much of an oversized payload gets through before the fault shows (and whether it shows as a short
     count, an error or missing bytes) depends on when the free-running draining peer runs; the verdict does not."""
@@ -220,6 +238,49 @@ def run_task(task):
                     if viol:
                         acc.violation('%s:%s:linesep:%s' % (task['transport'], mode, viol[0]), 'sequence %r: %s' % (seq, viol[1]),
                                       dict(task=task, seq=[list(o) for o in seq], mode=mode))
+    elif task['kind'] == 'short-write':
+        menu = [('send', 'ten'), ('sendline', 'ten'), ('write', 'ten'), ('writelines', 'ten', 'ten')]
+        for mode in ('bytes', 'utf-8'):
+            for n in (1, 2):
+                for seq in itertools.product(menu, repeat=n):
+                    def run(ch, seq=seq, mode=mode):
+                        return run_seq(dict(task, mode=mode), seq, mode, ch=ch)
+                    for ch, (obs, viol) in dfs(run, bound=2):
+                        acc.execs += 1
+                        acc.transitions += n
+                        if ch.deviations():
+                            acc.nontrivial += 1
+                            acc.flags['short_write'] += 1
+                            if ch.deviations() >= 2:
+                                acc.flags['two_short_writes'] += 1
+                        acc.outcomes['short-write:%s' % ('viol' if viol else 'ok')] += 1
+                        if viol:
+                            acc.violation('%s:%s:short-write:%s:%s' % (task['transport'], mode, seq[-1][0], viol[0]),
+                                          'sequence %r with short OS writes (choices %r): %s' % (seq, ch.choices(), viol[1]),
+                                          dict(task=task, seq=[list(o) for o in seq], mode=mode, choices=list(ch.choices())))
+    elif task['kind'] == 'sizes':
+        for i, n in enumerate(SIZES):
+            if i % task['parts'] != task['part']:
+                continue
+            for mode in ('bytes', 'utf-8'):
+                if mode == 'bytes':
+                    payload = bytes((j * 7 + 3) % 251 for j in range(n))
+                else:
+                    # n encoded bytes, at least one two-byte character when there is room
+                    payload = ('\xe9' + 'a' * (n - 2)) if n >= 2 else 'a' * n
+                for seq in ([('send', 'given')], [('sendline', 'given')]):
+                    obs, viol = run_seq(dict(task, mode=mode), seq, mode, big=n >= 2048, payload=payload)
+                    acc.execs += 1
+                    acc.transitions += 1
+                    acc.nontrivial += 1
+                    acc.flags['length_sweep'] += 1
+                    acc.outcomes['sizes:%s' % ('viol' if viol else 'ok')] += 1
+                    if viol:
+                        if n >= 2048:
+                            viol = big_verdict(viol)
+                        acc.violation('%s:%s:sizes:%s:%s' % (task['transport'], mode, seq[0][0], viol[0]),
+                                      'payload of %d encoded bytes: %s' % (n, viol[1]),
+                                      dict(task=task, seq=[list(o) for o in seq], mode=mode, size=n))
     elif task['kind'] == 'big':
         for mode in ('bytes', 'utf-8'):
             for seq in ([('send', 'big')], [('sendline', 'big')], [('send', 'big'), ('send', 'big')]):
@@ -260,6 +321,23 @@ def replay(spec):
     task = spec['task']
     mode = spec.get('mode') or task['mode']
     seq = [tuple(o) for o in spec['seq']]
+    if task['kind'] == 'short-write':
+        obs, viol = run_seq(dict(task, mode=mode), seq, mode, ch=Chooser(spec['choices']))
+        out = {'observation': obs, 'violation': None}
+        if viol:
+            out['violation'] = {'key': '%s:%s:short-write:%s:%s' % (task['transport'], mode, seq[-1][0], viol[0]), 'msg': viol[1]}
+        return out
+    if task['kind'] == 'sizes':
+        n = spec['size']
+        payload = bytes((j * 7 + 3) % 251 for j in range(n)) if mode == 'bytes' else (('\xe9' + 'a' * (n - 2)) if n >= 2 else 'a' * n)
+        obs, viol = run_seq(dict(task, mode=mode), seq, mode, big=n >= 2048, payload=payload)
+        out = {'observation': {'want_len': obs.get('want_len')}, 'violation': None, '_timing': {'observation': obs, 'detail': viol}}
+        if viol:
+            if n >= 2048:
+                viol = big_verdict(viol, detail=False)
+            out['violation'] = {'key': '%s:%s:sizes:%s:%s' % (task['transport'], mode, seq[0][0], viol[0]),
+                                'msg': viol[1] if n >= 2048 else 'payload of %d encoded bytes: %s' % (n, viol[1])}
+        return out
     obs, viol = run_seq(dict(task, mode=mode), seq, mode, big=spec.get('big', False))
     out = {'observation': obs, 'violation': None}
     if spec.get('big'):
